@@ -7,25 +7,6 @@ import SfntV.Proofs.OtlCoverage
 namespace SfntV.Otl
 open SfntV
 
-theorem drop_wordsToBytes_append (ws : List Nat) (c : Bytes) :
-    (wordsToBytes ws ++ c).drop (2 * ws.length) = c := by
-  rw [← length_wordsToBytes]
-  exact List.drop_left
-
-theorem bytesToWords_append (ws : List Nat) (h : ∀ w ∈ ws, w < 65536) (c : Bytes) :
-    bytesToWords (wordsToBytes ws ++ c) = ws ++ bytesToWords c := by
-  induction ws with
-  | nil => rfl
-  | cons w ws ih =>
-    rw [wordsToBytes_cons, List.append_assoc, bytesToWords_be16 w (h w (by simp))]
-    rw [ih (fun x hx => h x (by simp [hx]))]
-    rfl
-
-theorem drop_wordsToBytes_append' (a b : List Nat) (c : Bytes) :
-    (wordsToBytes (a ++ b) ++ c).drop (2 * a.length) = wordsToBytes b ++ c := by
-  rw [wordsToBytes_append, List.append_assoc]
-  exact drop_wordsToBytes_append a _
-
 namespace Cov
 
 /-! ### `ReadSet` on encoder output -/
